@@ -7,7 +7,7 @@ from harness.common import T
 from harness.main import Engine
 
 PID = 'C16'
-LEVEL = 'translation_validation'
+LEVEL = 'proof'
 RULE = ('parser/faults: a valid config (bindings, macros, blocks, imports, include tree of depth <= 3 over in-memory '
         'readers) with ONE fault injected at a random statement position (any depth of the include tree, any block '
         'member) out of 14 fault kinds (bad value, missing value, unbalanced bracket, bad selector, unknown parameter / '
